@@ -1460,6 +1460,11 @@ pub fn peer_receiver(seed: u64, family: &str, variant: u8) -> Scenario {
                 net.drop_p = if probe_tail { *r.pick(&[0.1, 0.2, 0.3]) } else { *r.pick(&[0.01, 0.03, 0.08, 0.15]) };
                 net.protect_syn = true;
             }
+            // retransmission family: the socket's send buffer is full now and then, also at the
+            // very moment a time-out wants to retransmit (the send is refused and repeated)
+            if variant == 2 && !probe_tail && r.chance(0.25) {
+                net.pending_p = *r.pick(&[0.05, 0.2, 0.5]);
+            }
             net
         },
         nodes: vec![NodeCfg { ipv6, opts, env: gen_env(&mut r) }],
